@@ -3,7 +3,7 @@
    wrote / read and answers with a boolean, evaluated by vm_compute inside coqc.  Definitions only. *)
 From Coq Require Import ZArith Ascii String Bool List.
 Import ListNotations.
-Require Import MD.Gen.CodecTables MD.Codec.Model.
+Require Import MD.Gen.CodecTables MD.Codec.Model MD.Codec.XtcModel.
 Open Scope Z_scope.
 
 Definition la := list_ascii_of_string.
@@ -141,44 +141,44 @@ Definition chk_restart (cur : bool) (time0 : bool) (n : nat) (has_cell : bool) (
   opt_eqb (list_eqb rfile_eqb) (save_restart (if cur then RstCur else RstFix) time0 cells frames) o.
 
 (* ---------------------------------------------------------------- compact case protocol
-   Coq's number notations are slow on big literal lists, so a case reaches coqc as three strings:
-   float32 numbers as 8 hex digits each, float64 numbers as 16 hex digits each (IEEE bit patterns), and
-   the text lines joined by LF.  [run_job] decodes them and calls the check functions above. *)
-Definition hexval (c : ascii) : Z :=
-  let n := Z.of_nat (nat_of_ascii c) in if n <? 58 then n - 48 else n - 87.
-Fixpoint hex_acc (s : list ascii) (acc : Z) : Z :=
-  match s with [] => acc | c :: r => hex_acc r (acc * 16 + hexval c) end.
+   Coq's number and string notations cost tens of microseconds per character, so the cases of a shard
+   reach coqc as ONE primitive array of 63-bit integers (parsed natively).  Stream of jobs:
+     kind, #params, params..., #f32, f32 bit patterns..., #f64, (hi32, lo32)..., #chars, chars packed 7 per int
+   [run_stream] decodes it and calls the check functions above; the answer is the list of failing job
+   indices.  This decoder is harness glue (trusted like the Python side), not part of the model. *)
+From Coq Require Uint63 PArray.
 
-Fixpoint groups_aux (fuel k : nat) (s : list ascii) : list (list ascii) :=
-  match fuel with
-  | O => []
-  | S f => match s with [] => [] | _ => firstn k s :: groups_aux f k (skipn k s) end
-  end.
-Definition groups (k : nat) (s : list ascii) := groups_aux (S (length s)) k s.
+Definition arr_to_list (a : PArray.array Uint63.int) : list Z :=
+  (fix go (fuel : nat) (i : Uint63.int) : list Z :=
+     match fuel with O => [] | S f => Uint63.to_Z (PArray.get a i) :: go f (Uint63.add i (Uint63.of_Z 1)) end)
+    (Z.to_nat (Uint63.to_Z (PArray.length a))) (Uint63.of_Z 0).
 
 Definition dy32 (b : Z) : dy :=
-  let neg := 2 ^ 31 <=? b in
-  let e := (b / 2 ^ 23) mod 256 in
-  let m := b mod 2 ^ 23 in
-  if e =? 0 then Dy neg m (-149) else Dy neg (m + 2 ^ 23) (e - 150).
+  let neg := Z.testbit b 31 in
+  let e := Z.land (Z.shiftr b 23) 255 in
+  let m := Z.land b 8388607 in
+  if e =? 0 then Dy neg m (-149) else Dy neg (m + 8388608) (e - 150).
 Definition dy64 (b : Z) : dy :=
-  let neg := 2 ^ 63 <=? b in
-  let e := (b / 2 ^ 52) mod 2048 in
-  let m := b mod 2 ^ 52 in
-  if e =? 0 then Dy neg m (-1074) else Dy neg (m + 2 ^ 52) (e - 1075).
+  let neg := Z.testbit b 63 in
+  let e := Z.land (Z.shiftr b 52) 2047 in
+  let m := Z.land b 4503599627370495 in
+  if e =? 0 then Dy neg m (-1074) else Dy neg (m + 4503599627370496) (e - 1075).
 
-Definition nums32 (s : string) : list dy := map (fun g => dy32 (hex_acc g 0)) (groups 8 (la s)).
-Definition nums64 (s : string) : list dy := map (fun g => dy64 (hex_acc g 0)) (groups 16 (la s)).
+Fixpoint pairs64 (l : list Z) : list dy :=
+  match l with hi :: lo :: r => dy64 (Z.shiftl hi 32 + lo) :: pairs64 r | _ => [] end.
 
-Definition lf : ascii := ascii_of_nat 10.
+Definition unpack7 (z : Z) : list ascii :=
+  map (fun k => ascii_of_N (Z.to_N (Z.land (Z.shiftr z k) 255))) [48; 40; 32; 24; 16; 8; 0].
+
+Definition lf : ascii := ascii_of_N 10.
 Fixpoint split_lf_aux (s : list ascii) (cur : list ascii) : list string :=
   match s with
   | [] => [st (rev cur)]
   | c :: r => if Ascii.eqb c lf then st (rev cur) :: split_lf_aux r [] else split_lf_aux r (c :: cur)
   end.
-(* "" is no line at all; otherwise LF separates lines *)
-Definition lines_of (t : string) : list string :=
-  match t with EmptyString => [] | _ => split_lf_aux (la t) [] end.
+(* no characters = no line at all; otherwise LF separates lines *)
+Definition lines_of (t : list ascii) : list string :=
+  match t with [] => [] | _ => split_lf_aux t [] end.
 
 Fixpoint chop_aux {A} (fuel k : nat) (l : list A) : list (list A) :=
   match fuel with
@@ -198,14 +198,58 @@ Definition items_of (xs : list dy) (ls : list string) : items := combine (chop 3
 
 Definition hb_of (n : nat) : hasbox := match n with O => HBfalse | S O => HBtrue | _ => HBdetect end.
 
-Inductive job := Job (kind : nat) (ps : list nat) (n32 n64 txt : string).
+(* ---------------------------------------------------------------- XTC *)
+Fixpoint triples_of (l : list Z) : list triple :=
+  match l with a :: b :: c :: r => (a, b, c) :: triples_of r | _ => [] end.
+
+Definition triple_eqb (a b : triple) : bool :=
+  let '(a0, a1, a2) := a in let '(b0, b1, b2) := b in (a0 =? b0) && (a1 =? b1) && (a2 =? b2).
+
+Definition payload_eqb (p q : xtc_payload) : bool :=
+  triple_eqb (xp_min p) (xp_min q) && triple_eqb (xp_max p) (xp_max q) && (xp_smallidx p =? xp_smallidx q) &&
+  list_eqb Z.eqb (xp_bytes p) (xp_bytes q).
+
+(* one frame of the file against the frame that was saved: bits = float32 patterns of 3n coordinates (nm) *)
+Definition chk_xtc_frame (enc : bool) (n_atoms : Z) (idx : Z) (bits : list Z) (time : Z) (box : list Z) (fr : xtc_frame) : bool :=
+  (xf_natoms fr =? n_atoms) && (xf_step fr =? idx) && (xf_time fr =? time) && list_eqb Z.eqb (xf_box fr) box &&
+  match xf_coords fr with
+  | XRaw xs => (n_atoms <=? xtc_raw_max_atoms) && list_eqb Z.eqb xs bits
+  | XPacked prec p =>
+      let lints := triples_of (map (fun b => xtc_lint (dy32 b)) bits) in
+      (xtc_raw_max_atoms <? n_atoms) &&
+      (prec =? 1148846080) &&                                     (* 1000.0f *)
+      if enc then opt_eqb payload_eqb (xtc_encode lints) (Some p)               (* the writer, byte for byte *)
+      else opt_eqb (list_eqb triple_eqb) (xtc_decode n_atoms p) (Some lints)    (* the independent reader *)
+  end.
+
+Fixpoint chk_xtc_frames (enc : bool) (n_atoms : Z) (idx : Z) (xyz : list (list Z)) (times : list Z) (boxes : list (list Z))
+         (frs : list xtc_frame) : bool :=
+  match xyz, times, boxes, frs with
+  | [], [], [], [] => true
+  | x :: xr, t :: tr, b :: br, f :: fr =>
+      chk_xtc_frame enc n_atoms idx x t b f && chk_xtc_frames enc n_atoms (idx + 1) xr tr br fr
+  | _, _, _, _ => false
+  end.
+
+Definition chk_xtc (enc : bool) (n_atoms n_frames : nat) (nums : list Z) (bytes : list Z) : bool :=
+  let k := (3 * n_atoms)%nat in
+  let xyz := chop k (firstn (k * n_frames) nums) in
+  let rest := skipn (k * n_frames) nums in
+  let times := firstn n_frames rest in
+  let boxes := chop 9 (skipn n_frames rest) in
+  match read_frames (S n_frames) bytes with
+  | Some frs => chk_xtc_frames enc (Z.of_nat n_atoms) 0 xyz times boxes frs
+  | None => false
+  end.
+
+Record job := Job { jkind : nat; jps : list nat; j32 : list Z; j64 : list Z; jtxt : list ascii }.
 
 Definition run_job (j : job) : bool :=
-  let '(Job kind ps s32 s64 txt) := j in
-  let p (i : nat) := nth i ps 0%nat in
-  let xs := nums32 s32 in
-  let ls := lines_of txt in
-  match kind with
+  let p (i : nat) := nth i (jps j) 0%nat in
+  let xs := map dy32 (j32 j) in
+  let ls := lines_of (jtxt j) in
+  let raw w := if Nat.eqb w 64 then pairs64 (j64 j) else map dy32 (j64 j) in
+  match jkind j with
   | 0%nat => chk_mdcrd_enc (mframes_of (p 0%nat) (nb (p 1%nat)) xs) ls
   | 1%nat => chk_mdcrd_dec (hb_of (p 2%nat)) (p 0%nat) (mframes_of (p 0%nat) (nb (p 1%nat)) xs) ls
   | 2%nat => chk_mdcrd_refused (mframes_of (p 0%nat) (nb (p 1%nat)) xs)
@@ -221,7 +265,57 @@ Definition run_job (j : job) : bool :=
   | 9%nat => let n3 := (length xs - (if nb (p 0%nat) then 6 else 0))%nat in
              chk_rst7 (firstn n3 xs)
                       (if nb (p 0%nat) then Some (firstn 3 (skipn n3 xs), skipn (n3 + 3) xs) else None) ls
-  | 10%nat => chk_container txt xs (if Nat.eqb (p 0%nat) 64 then nums64 s64 else nums32 s64)
-  | 11%nat => chk_same xs (if Nat.eqb (p 0%nat) 64 then nums64 s64 else nums32 s64)
+  | 10%nat => chk_container (nth 0 ls EmptyString) xs (raw (p 0%nat))
+  | 11%nat => chk_same xs (raw (p 0%nat))
+  | 12%nat => chk_xtc false (p 0%nat) (p 1%nat) (j32 j) (map (fun c => Z.of_N (N_of_ascii c)) (jtxt j))
+  | 13%nat => chk_xtc true (p 0%nat) (p 1%nat) (j32 j) (map (fun c => Z.of_N (N_of_ascii c)) (jtxt j))
   | _ => false
   end.
+
+(* ---- stream decoding ---- *)
+Definition take_z (n : Z) (l : list Z) : list Z * list Z := (firstn (Z.to_nat n) l, skipn (Z.to_nat n) l).
+
+Definition parse_job (l : list Z) : option (job * list Z) :=
+  match l with
+  | kind :: np :: r0 =>
+      let (ps, r1) := take_z np r0 in
+      match r1 with
+      | n32 :: r2 =>
+          let (x32, r3) := take_z n32 r2 in
+          match r3 with
+          | n64 :: r4 =>
+              let (x64, r5) := take_z n64 r4 in
+              match r5 with
+              | nch :: r6 =>
+                  let (packed, r7) := take_z ((nch + 6) / 7) r6 in
+                  Some (Job (Z.to_nat kind) (map Z.to_nat ps) x32 x64
+                            (firstn (Z.to_nat nch) (concat (map unpack7 packed))), r7)
+              | [] => None
+              end
+          | [] => None
+          end
+      | [] => None
+      end
+  | _ => None
+  end.
+
+Fixpoint parse_jobs (fuel : nat) (l : list Z) : list job :=
+  match fuel with
+  | O => []
+  | S f => match l with
+           | [] => []
+           | _ => match parse_job l with Some (j, r) => j :: parse_jobs f r | None => [] end
+           end
+  end.
+
+Fixpoint bad_jobs (i : nat) (js : list job) : list nat :=
+  match js with
+  | [] => []
+  | j :: r => if run_job j then bad_jobs (S i) r else i :: bad_jobs (S i) r
+  end.
+
+(* (number of jobs decoded, indices of the jobs whose check failed) *)
+Definition run_stream (a : PArray.array Uint63.int) : nat * list nat :=
+  let l := arr_to_list a in
+  let js := parse_jobs (length l) l in
+  (length js, bad_jobs 0 js).
